@@ -9,7 +9,7 @@ sid = f"{pref}-{prop}-{m}"
 dst = f"/verif/seeded/{sid}"
 os.makedirs(dst, exist_ok=True)
 for f in ("patch.diff", "demo.c", "README.md"):
-    if os.path.exists(os.path.join(src, f)): shutil.copy(os.path.join(src, f), os.path.join(dst, f))
+    if os.path.exists(os.path.join(src, f)) and os.path.realpath(src) != os.path.realpath(dst): shutil.copy(os.path.join(src, f), os.path.join(dst, f))
 sv = open(f"/tmp/svout/{prop}__seed_{m}.txt").read() if os.path.exists(f"/tmp/svout/{prop}__seed_{m}.txt") else ""
 confirm = {
     "demo_without_patch_exit": (re.search(r"demo_without_patch_exit=(\S+)", sv) or [None, None])[1],
